@@ -109,6 +109,20 @@ CHECKS.update({
                 design='DESIGN.md section 9 (C08)', technique='TLA+ route-free reference machine + TLC trace validation of twin objects built by every route'),
 })
 
+CHECKS.update({
+    'C04': dict(text=("Model-based: Mech.tla models storages with an immutable flag, object->storage pointers, the string cache and "
+                      "handed-out bitarrays with one copy-discipline constant per code site; TLC exhaustively explores all "
+                      "histories (1.4-8 million states) and proves ImmutableConst / OnlyTargetChanges with every discipline on, and "
+                      "must find a counterexample for each discipline switched off (negative controls). The real code is bound by "
+                      "seeded random derive/mutate programs over every derivation route and user-held buffers; after every call "
+                      "TLC re-checks the value of every live object against the reference semantics."),
+                design='DESIGN.md section 9 (C04)', technique='TLA+ mechanism model (TLC exhaustive, with negative controls) + TLC trace validation with whole-state frame check'),
+    'C09': dict(text=("Model-based: PureConstruction on Mech.tla (cache capacity 1, eviction, option changes) plus trace validation "
+                      "of long call histories over 330 distinct keys with option flips and mutation of earlier results against "
+                      "the history-free Step function - which is exactly the comparison with the same call on cold caches."),
+                design='DESIGN.md section 9 (C09)', technique='TLA+ mechanism model of the LRU cache + TLC trace validation of long histories against a history-free step function'),
+})
+
 NOT_YET = {
 }
 
